@@ -6,7 +6,7 @@
    this is libm rounding the real-number model cannot exhibit. *)
 From Coq Require Import Arith List Reals QArith Qcanon.
 From GPV Require Import Base.LinAlg Base.Exec Base.Expr Models.C17_constraints
-  Proofs.C17_constraints Proofs.C17_extra Proofs.C17_lkj.
+  Proofs.C17_constraints Proofs.C17_extra Proofs.C17_lkj Proofs.C17_multi.
 Import ListNotations.
 
 (* range: for EVERY real raw value the transformed value is strictly inside the bounds
@@ -184,6 +184,79 @@ Theorem c17_raw_ops_read :
     readR c (step_e c s (Step d)) = transform_R c (den (fst s) + den d)%R.
 Proof. exact raw_ops_read. Qed.
 Print Assumptions c17_raw_ops_read.
+
+(* ---- modules with SEVERAL constrained parameters, each with its own constraint (mstate) --------------
+   an operation on parameter i never touches another parameter (constraint, raw value, rejection count),
+   whichever constraint the setter consults *)
+Theorem c17_multi_set_frame :
+  forall (via : nat -> nat) (s : mstate) (i j : nat) (o : op Qc expr), j <> i ->
+    nth_error (mstep_via via s (i, o)) j = nth_error s j.
+Proof. intros via s i j o H. exact (mstep_frame via s i o j H). Qed.
+Print Assumptions c17_multi_set_frame.
+
+(* `module.<param_i> = v` / initialize(<param_i>=v) with v inside the bounds of constraint i reads back v, for ANY
+   constraints (classes, bounds) of the other parameters *)
+Theorem c17_multi_set_reads_back :
+  forall (s : mstate) (i : nat) (c : cons) (cl : cell expr) (v : Qc),
+    nth_error s i = Some (c, cl) -> wf c -> interior_q c v = true ->
+    exists cl', nth_error (mstep s (i, Set_ v)) i = Some (c, cl') /\ readR c cl' = q v /\ snd cl' = snd cl
+                /\ nth_error (mstep s (i, InitCons v)) i = Some (c, cl').
+Proof. exact mset_reads_back. Qed.
+Print Assumptions c17_multi_set_reads_back.
+
+(* a value outside the bounds of constraint i is rejected (raw value kept, counted) even when it lies inside the
+   bounds of every other parameter of the module *)
+Theorem c17_multi_out_of_bounds_rejected :
+  forall (s : mstate) (i : nat) (c : cons) (cl : cell expr) (v : Qc),
+    nth_error s i = Some (c, cl) -> interior_q c v = false ->
+    nth_error (mstep s (i, Set_ v)) i = Some (c, (fst cl, S (snd cl))).
+Proof. exact mset_out_of_bounds. Qed.
+Print Assumptions c17_multi_out_of_bounds_rejected.
+
+(* after ANY history of operations addressed to any of the parameters every parameter reads inside its own bounds *)
+Theorem c17_multi_history_in_bounds :
+  forall (s : mstate) (ops : list (nat * op Qc expr)), all_wf s -> Forall all_in_bounds (mtrace s ops).
+Proof. exact mhistory_in_bounds. Qed.
+Print Assumptions c17_multi_history_in_bounds.
+
+(* a setter that consults ANOTHER parameter's constraint (stored through GreaterThan(l'), read through GreaterThan(l);
+   Positive is l = 0): the read-back is shifted by l - l', so it is v exactly when the two bounds coincide -- invisible
+   with default constraints, wrong for any distinct pair; same for two Intervals (affine image) *)
+Theorem c17_setter_via_other_constraint_greater :
+  forall (l l' : Qc) (cl : cell expr) (v : Qc), interior_q (CGreater l') v = true ->
+    readR (CGreater l) (step_via (CGreater l) (CGreater l') cl (Set_ v)) = (q v - q l' + q l)%R /\
+    (readR (CGreater l) (step_via (CGreater l) (CGreater l') cl (Set_ v)) = q v <-> q l = q l').
+Proof.
+  intros l l' cl v H. split; [exact (setter_via_other_greater l l' cl v H)|exact (setter_via_other_greater_iff l l' cl v H)].
+Qed.
+Print Assumptions c17_setter_via_other_constraint_greater.
+
+Theorem c17_setter_via_other_constraint_interval :
+  forall (l u l' u' : Qc) (cl : cell expr) (v : Qc),
+    wf (CInterval l' u') -> interior_q (CInterval l' u') v = true ->
+    readR (CInterval l u) (step_via (CInterval l u) (CInterval l' u') cl (Set_ v))
+    = ((q v - q l') / (q u' - q l') * (q u - q l) + q l)%R.
+Proof. exact setter_via_other_interval. Qed.
+Print Assumptions c17_setter_via_other_constraint_interval.
+
+(* hence "set reads back, out-of-bounds rejected" is refuted for a module whose setter of parameter 0 consults the
+   constraint of parameter 1: a two-parameter witness with GreaterThan(1) / GreaterThan(0) *)
+Theorem c17_setter_wrong_constraint_refuted :
+  exists (s : mstate) (i : nat) (c : cons) (cl : cell expr) (v w : Qc),
+    all_wf s /\ nth_error s i = Some (c, cl) /\ interior_q c v = true /\ interior_q c w = false /\
+    (forall cl', nth_error (mstep_via (fun j => (1 - j)%nat) s (i, Set_ v)) i = Some (c, cl') -> readR c cl' <> q v) /\
+    (forall cl', nth_error (mstep_via (fun j => (1 - j)%nat) s (i, Set_ w)) i = Some (c, cl') -> snd cl' = snd cl).
+Proof. exact setter_wrong_constraint_refuted. Qed.
+Print Assumptions c17_setter_wrong_constraint_refuted.
+
+Example ex_c17_multi_module :
+  let s := [(CInterval (qc 1 2) (qc 4 1), (EConst 0%Qc, O)); (CGreater (qc 5 1), (EConst 0%Qc, O));
+            (CLess (qc 3 1), (EConst 0%Qc, O))] in
+  all_wf s /\ nth_error s 1 = Some (CGreater (qc 5 1), (EConst 0%Qc, O)) /\
+  interior_q (CGreater (qc 5 1)) (qc 6 1) = true /\ interior_q (CInterval (qc 1 2) (qc 4 1)) (qc 6 1) = false /\
+  length (mtrace s [(1%nat, Set_ (qc 6 1)); (0%nat, Set_ (qc 6 1)); (2%nat, Step (EConst (qc 1 1)))]) = 3%nat.
+Proof. exact ex_multi_module. Qed.
+Print Assumptions ex_c17_multi_module.
 
 (* non-vacuity: a well-formed interval, an interior value, a non-empty history *)
 Example ex_c17_interval_history :
